@@ -289,6 +289,20 @@ def run(chk):
     cose = [t for bb, t in fr.calls() if names.call_is(t, "ciborium::de::from_reader")]
     chk.ob("R2 reader = writer", "R2|from_reader|cose-key-last", len(cose) == 1 and all(cose and b2 in fr.reachable(bb) for bb, _ in reads for b2 in [names.calls_to(fr, "ciborium::de::from_reader")[0][0]]) if cose else False, where(fr), "COSE key is read after the three fixed reads")
 
+    # the reader accepts every length the writer can emit: the writer's prefix is any u16 (R4), so no outcome of
+    # from_reader may depend on a *test of the decoded length* (or of any other value computed from bytes already read) —
+    # the only conditions on its paths are the success or failure of the reads and decodes themselves.
+    fr_in = inline.inlined(p, fr) if inline is not None else fr
+    val_tests = []
+    for o in S.local_outcomes(fr_in):
+        for t, l, f_, w in o.conds:
+            if isinstance(t, tuple) and t and t[0] == "discr" and isinstance(t[1], tuple) and t[1] and t[1][0] == "try":
+                continue
+            if flow.term_contains(t, lambda x: isinstance(x, tuple) and len(x) == 4 and x[0] == "call" and (x[1].endswith("::from_be_bytes") or x[1].endswith("::from_le_bytes") or x[1].endswith("::from_ne_bytes"))):
+                val_tests.append("%s [%s]" % (flow.term_str(t)[:90], w))
+    chk.ob("R2 reader = writer", "R2|from_reader|no-rejection-on-the-decoded-length", not val_tests, where(fr),
+           "paths of from_reader decided by a test on the decoded length prefix (the writer emits every u16 length, R4): %s" % sorted(set(val_tests)))
+
     # ---------------- R3
     for nm, v in FLAGS.items():
         c = p.consts.get("passkey_types::ctap2::flags::Flags::" + nm)
